@@ -141,7 +141,7 @@ class FakeFile:
         try:
             self.fs.mutate('write', self.path, len(b))
         except Crash:
-            k = self.fs.crash_partial or 0
+            k = self.fs.crash_partial() if callable(self.fs.crash_partial) else (self.fs.crash_partial or 0)      # asked only when the crash lands on a write
             self.data.extend(b[:k])
             raise
         self.data.extend(b); return len(b)
